@@ -19,6 +19,9 @@ def run(ctx):
         nmodel, nsim = len(mc.scenarios), len(sim.scenarios)
         if nsim == 0:
             raise vlib.Inconclusive("TLC simulation exported no random walk")
+        # the same server object has been run before (with the password, without one, and now with it again): a sample of
+        # the scenarios is replayed on such a server
+        scenarios += [dict(s, passcycle=True) for s in scenarios[::5] if s.get("requirepass")]
     ctx.stage("generate")
     accepted, scs, lines = connlib.run_scenarios(ctx, scenarios, "c08")
     groups = connlib.report(ctx, accepted, scs, lines, None)
